@@ -1375,7 +1375,12 @@ func (cs *ConsensusState) defaultSetProposal(proposal *types.Proposal) error {
 	}
 
 	cs.Proposal = proposal
-	cs.ProposalBlockParts = types.NewPartSetFromHeader(proposal.BlockPartsHeader)
+	// The parts of this very block may already be here (a polka or a commit for it
+	// made us collect them before the proposal arrived): keep them, an empty set
+	// next to a complete ProposalBlock cannot be saved when the block is committed.
+	if cs.ProposalBlockParts == nil || !cs.ProposalBlockParts.HasHeader(proposal.BlockPartsHeader) {
+		cs.ProposalBlockParts = types.NewPartSetFromHeader(proposal.BlockPartsHeader)
+	}
 	return nil
 }
 
